@@ -118,6 +118,9 @@ def memo_binding(ctx, cases):
     events = []
     for evs in lists:
         for e in evs:
+            if 'drift' in e:
+                ctx.note('mechanism_binding', 'drift(%s)' % e['drift'])
+                return
             e['tid'] = len(events)
             events.append(e)
     bad = ctx.validate('TraceSem.tla', 'Trace.cfg', events)
